@@ -284,7 +284,14 @@ func (g *gen) declType(form int) *Ty {
 				if e != nil {
 					u.Fields = append(u.Fields, Field{Name: embeddedName(e), T: e, Embedded: true})
 					g.feat("embedded_field")
+					if e.Name == "" && e.K == KPtr {
+						t.EmbPtr = true
+					}
 				}
+			} else if g.chance(12, "embedself") {
+				u.Fields = append(u.Fields, Field{Name: name, T: ptrTo(t), Embedded: true})
+				t.Rec, t.SelfEmb, t.EmbPtr = true, true, true
+				g.feat("embedded_self_pointer")
 			}
 			t.Under = u
 			sb.WriteString(g.doc(name) + "type " + name + " " + g.ts(u) + "\n")
@@ -402,6 +409,9 @@ func (g *gen) declType(form int) *Ty {
 				}
 				if !dup {
 					u.Fields = append(u.Fields, Field{Name: embeddedName(e), T: e, Embedded: true, Tag: pick(g, "tag", fieldTags...)})
+					if e.Name == "" && e.K == KPtr {
+						t.EmbPtr = true
+					}
 				}
 			}
 			u.Fields = append(u.Fields, Field{Name: "n", T: tInt})
